@@ -207,6 +207,33 @@ Definition stat_route (gstat : mtable -> Q) (auto_l vals : list Q) (female_shift
   | _, _ => 0%Z
   end.
 
+(* both at once (one evaluation of the two tests): what the entry c15_noise_check runs; equal to the pair above
+   (Proofs/SexNoise.v stat_contract_route_eq) *)
+Definition stat_contract_route (gstat : mtable -> Q) (auto_l : list Q) (auto_w : option (list Q))
+  (vals : list Q) (w : option (list Q)) (female_shift male_shift : Q) : bool * Z :=
+  let fv := map (fun x => qadd x female_shift) vals in
+  let mv := map (fun x => qadd x male_shift) vals in
+  match mood_stat gstat auto_l fv, mood_stat gstat auto_l mv with
+  | Some f, Some m =>
+      let fd := med_diff auto_l auto_w fv w in
+      let md := med_diff auto_l auto_w mv w in
+      (qle_b 0 f && qle_b 0 m && (negb (qlt_b fd md) || qle_b f m) &&
+       (negb (qlt_b md fd) || (qlt_b m f && qlt_b lr_denominator_floor f)), 1%Z)
+  | _, _ => (true, 0%Z)
+  end.
+Definition sex_contract_route_x gstat (hap : bool) (build : option parb) (t : list bin) : bool * Z :=
+  let chrx := filter (chr_x_filter t build) t in
+  let auto := autosomes t build in
+  let use := has_weight t in
+  stat_contract_route gstat (map b_log2 auto) (opt_weights use auto) (map b_log2 chrx) (opt_weights use chrx)
+                      (fst (x_shifts hap)) (snd (x_shifts hap)).
+Definition sex_contract_route_y gstat (build : option parb) (t : list bin) : bool * Z :=
+  let chry := filter (chr_y_filter t build) t in
+  let auto := autosomes t build in
+  let use := has_weight t in
+  stat_contract_route gstat (map b_log2 auto) (opt_weights use auto) (map b_log2 chry) (opt_weights use chry)
+                      y_shift_female y_shift_male.
+
 Definition sex_contract_x_b gstat (hap : bool) (build : option parb) (t : list bin) : bool :=
   let chrx := filter (chr_x_filter t build) t in
   let auto := autosomes t build in
